@@ -541,17 +541,151 @@ Proof.
   rewrite (redefinition_detected_perm _ _ HP), (cycle_detected_perm _ _ HP). reflexivity.
 Qed.
 
-(* the code's choice between the two errors depends on the statement order (duplicate + cycle through one definition) *)
+(* BEFORE the repair the code's choice between the two errors depended on the statement order (duplicate + cycle through one definition) *)
 Definition witness_a : list stmt := [Stmt 1 [2] false; Stmt 1 [0] false; Stmt 2 [1] false].  (* A := B; A := X; B := A *)
 Definition witness_b : list stmt := [Stmt 1 [0] false; Stmt 1 [2] false; Stmt 2 [1] false].  (* A := X; A := B; B := A *)
 
-Theorem outcome_impl_order_dependent :
-  exists ss ss', Permutation ss ss' /\ outcome_impl ss <> outcome_impl ss'.
+Theorem outcome_before_fix_order_dependent :
+  exists ss ss', Permutation ss ss' /\ outcome_before_fix ss <> outcome_before_fix ss'.
 Proof.
   exists witness_a, witness_b. split.
   - unfold witness_a, witness_b. apply perm_swap.
   - vm_compute. discriminate.
 Qed.
+
+(* ---------------------------------------------------------------- the code's graph (last-definition edges over keys) vs the script *)
+Lemma index_last_some : forall x l k j, index_last x l k = Some j ->
+  k <= j /\ nth_error l (j - k) = Some x.
+Proof.
+  intros x. induction l as [|y r IH]; intros k j H; [discriminate|].
+  cbn [index_last] in H. destruct (index_last x r (S k)) as [j'|] eqn:E.
+  - inversion H; subst j'. destruct (IH (S k) j E) as [Hle Hn]. split; [lia|].
+    replace (j - k) with (S (j - S k)) by lia. exact Hn.
+  - destruct (Nat.eqb_spec x y) as [->|]; [|discriminate]. inversion H; subst j.
+    split; [lia|]. rewrite Nat.sub_diag. reflexivity.
+Qed.
+
+Lemma index_last_complete : forall x l k, In x l -> exists j, index_last x l k = Some j.
+Proof.
+  intros x. induction l as [|y r IH]; intros k Hin; [destruct Hin|].
+  cbn [index_last]. destruct (index_last x r (S k)) as [j'|] eqn:E; [exists j'; reflexivity|].
+  destruct Hin as [->|Hin].
+  - rewrite Nat.eqb_refl. exists k. reflexivity.
+  - destruct (IH (S k) Hin) as [j Hj]. congruence.
+Qed.
+
+Lemma index_last_none_notin : forall x l k, index_last x l k = None -> ~ In x l.
+Proof.
+  intros x l k H Hin. destruct (index_last_complete x l k Hin) as [j Hj]. congruence.
+Qed.
+
+Lemma index_last_unique : forall x l k i, NoDup l -> nth_error l i = Some x -> index_last x l k = Some (k + i).
+Proof.
+  intros x. induction l as [|y r IH]; intros k i Hn Hi; [destruct i; discriminate|].
+  apply NoDup_cons_iff in Hn. destruct Hn as [Hy Hn]. cbn [index_last]. destruct i as [|i].
+  - simpl in Hi. inversion Hi; subst y.
+    destruct (index_last x r (S k)) as [j'|] eqn:E.
+    + exfalso. apply Hy. destruct (index_last_some x r (S k) j' E) as [_ Hn']. eapply nth_error_In. exact Hn'.
+    + rewrite Nat.eqb_refl. f_equal. lia.
+  - simpl in Hi. rewrite (IH (S k) i Hn Hi). f_equal. lia.
+Qed.
+
+Lemma impl_from_In : forall all l k s',
+  In s' (impl_from all k l) <-> exists i s, nth_error l i = Some s /\ s' = Stmt (k + i) (producers all s) (s_pers s).
+Proof.
+  intros all. induction l as [|a l IH]; intros k s'.
+  - simpl. split; [intros [] | intros [i [s [H _]]]; destruct i; discriminate].
+  - cbn [impl_from In]. rewrite IH. split.
+    + intros [E|[i [s [Hi E]]]].
+      * exists 0, a. split; [reflexivity|]. rewrite Nat.add_0_r. symmetry. exact E.
+      * exists (S i), s. split; [exact Hi|]. rewrite E. f_equal. lia.
+    + intros [i [s [Hi E]]]. destruct i as [|i].
+      * left. simpl in Hi. inversion Hi; subst a. rewrite Nat.add_0_r in E. symmetry. exact E.
+      * right. exists i, s. split; [exact Hi|]. rewrite E. f_equal. lia.
+Qed.
+
+Lemma producers_In : forall all s j, In j (producers all s) <-> exists d, In d (s_deps s) /\ last_def all d = Some j.
+Proof.
+  intros all s j. unfold producers. rewrite in_flat_map. split.
+  - intros [d [Hd Hj]]. exists d. split; [exact Hd|]. destruct (last_def all d) as [j'|]; [|destruct Hj].
+    destruct Hj as [<-|[]]. reflexivity.
+  - intros [d [Hd Hj]]. exists d. split; [exact Hd|]. rewrite Hj. left. reflexivity.
+Qed.
+
+Lemma clos_trans_map : forall (A B : Type) (R1 : A -> A -> Prop) (R2 : B -> B -> Prop) (f : A -> B),
+  (forall a b, R1 a b -> R2 (f a) (f b)) -> forall a b, clos_trans A R1 a b -> clos_trans B R2 (f a) (f b).
+Proof.
+  intros A B R1 R2 f H a b C. induction C as [a b Hab | a b c _ IH1 _ IH2].
+  - apply t_step. exact (H _ _ Hab).
+  - eapply t_trans; eassumption.
+Qed.
+
+(* a cycle of the key graph is a cycle of the script (no hypothesis) *)
+Lemma impl_cyclic_cyclic : forall ss, cyclic (impl_view ss) -> cyclic ss.
+Proof.
+  intros ss [n C]. exists (nth (n - 1) (outs ss) 0).
+  apply (clos_trans_map nat name (reads_rel (impl_view ss)) (reads_rel ss) (fun k => nth (k - 1) (outs ss) 0)); [|exact C].
+  intros a b [s' [Hs' [Ho Hd]]]. unfold impl_view in Hs'. apply impl_from_In in Hs'.
+  destruct Hs' as [i [s [Hi E]]]. subst s'. cbn [s_out s_deps] in Ho, Hd. subst a.
+  apply producers_In in Hd. destruct Hd as [d [Hd Hl]].
+  unfold last_def in Hl. destruct (index_last_some d (outs ss) 1 b Hl) as [_ Hb].
+  exists s. split; [eapply nth_error_In; exact Hi|]. split.
+  - replace (1 + i - 1) with i by lia. apply nth_error_nth. unfold outs. apply map_nth_error. exact Hi.
+  - rewrite (nth_error_nth (outs ss) (b - 1) 0 Hb). exact Hd.
+Qed.
+
+(* with unique outputs a cycle of the script is a cycle of the key graph *)
+Lemma edge_to_impl : forall ss x y, NoDup (outs ss) -> reads_rel ss x y -> In y (outs ss) ->
+  exists kx ky, last_def ss x = Some kx /\ last_def ss y = Some ky /\ reads_rel (impl_view ss) kx ky.
+Proof.
+  intros ss x y Hn [s [Hs [Ho Hd]]] Hy.
+  destruct (In_nth_error ss s Hs) as [i Hi].
+  assert (Hx : last_def ss x = Some (1 + i)).
+  { unfold last_def. apply index_last_unique; [exact Hn|]. subst x. unfold outs. apply map_nth_error. exact Hi. }
+  destruct (index_last_complete y (outs ss) 1 Hy) as [j Hj].
+  exists (1 + i), j. split; [exact Hx|]. split; [exact Hj|].
+  exists (Stmt (1 + i) (producers ss s) (s_pers s)). split.
+  - unfold impl_view. apply impl_from_In. exists i, s. split; [exact Hi | reflexivity].
+  - split; [reflexivity|]. cbn [s_deps]. apply producers_In. exists y. split; [exact Hd | exact Hj].
+Qed.
+
+Lemma path_to_impl : forall ss x y, NoDup (outs ss) -> clos_trans name (reads_rel ss) x y -> In y (outs ss) ->
+  exists kx ky, last_def ss x = Some kx /\ last_def ss y = Some ky /\ clos_trans name (reads_rel (impl_view ss)) kx ky.
+Proof.
+  intros ss x y Hn C. apply clos_trans_tn1 in C. induction C as [y Hxy | y z Hyz C IH]; intro Hout.
+  - destruct (edge_to_impl ss x y Hn Hxy Hout) as [kx [ky [H1 [H2 H3]]]].
+    exists kx, ky. split; [exact H1|]. split; [exact H2|]. apply t_step. exact H3.
+  - destruct (IH (edge_source_is_output ss y z Hyz)) as [kx [ky [H1 [H2 H3]]]].
+    destruct (edge_to_impl ss y z Hn Hyz Hout) as [ky' [kz [H4 [H5 H6]]]].
+    assert (ky' = ky) by congruence. subst ky'.
+    exists kx, kz. split; [exact H1|]. split; [exact H5|]. eapply t_trans; [exact H3 | apply t_step; exact H6].
+Qed.
+
+Lemma cyclic_impl_cyclic : forall ss, NoDup (outs ss) -> cyclic ss -> cyclic (impl_view ss).
+Proof.
+  intros ss Hn [n C].
+  destruct (path_to_impl ss n n Hn C (path_source_is_output ss n n C)) as [kx [ky [H1 [H2 H3]]]].
+  assert (kx = ky) by congruence. subst ky. exists kx. exact H3.
+Qed.
+
+Theorem impl_graph_cycle_iff : forall ss, NoDup (outs ss) ->
+  cycle_detected (impl_view ss) = cycle_detected ss.
+Proof.
+  intros ss Hn.
+  destruct (cycle_detected (impl_view ss)) eqn:A; destruct (cycle_detected ss) eqn:B; try reflexivity; exfalso.
+  - apply cycle_detected_iff in A. apply impl_cyclic_cyclic in A. apply cycle_detected_iff in A. congruence.
+  - apply cycle_detected_iff in B. apply (cyclic_impl_cyclic ss Hn) in B. apply cycle_detected_iff in B. congruence.
+Qed.
+
+(* the repaired create_dag makes exactly the specified choice, hence the same one in every statement order *)
+Theorem outcome_impl_is_spec : forall ss, outcome_impl ss = outcome_spec ss.
+Proof.
+  intros ss. unfold outcome_impl, outcome_spec. destruct (redefinition_detected ss) eqn:R; [reflexivity|].
+  rewrite (impl_graph_cycle_iff ss (proj1 (redefinition_detected_nodup ss) R)). reflexivity.
+Qed.
+
+Theorem outcome_impl_perm : forall ss ss', Permutation ss ss' -> outcome_impl ss = outcome_impl ss'.
+Proof. intros ss ss' HP. rewrite !outcome_impl_is_spec. exact (outcome_spec_perm ss ss' HP). Qed.
 
 (* ---------------------------------------------------------------- unknown-variable promotion *)
 Lemma promote_with_deps : forall known r v,
@@ -569,22 +703,25 @@ Proof.
   - split; [reflexivity|]. apply promote_with_deps. right. split; assumption.
 Qed.
 
-Theorem unknown_variable_promotion_impl_partial : forall rs r v,
+Theorem promote_impl_is_spec : forall rs, promote_impl rs = promote_spec rs.
+Proof. reflexivity. Qed.
+
+Theorem unknown_variable_promotion_before_fix_partial : forall rs r v,
   In r rs -> In v (r_unk r) -> In v (assigned_nonpers rs) ->
-  exists s, In s (promote_impl rs) /\ s_out s = r_out r /\ In v (s_deps s).
+  exists s, In s (promote_before_fix rs) /\ s_out s = r_out r /\ In v (s_deps s).
 Proof.
   intros rs r v Hr Hv Hk. exists (promote_with (assigned_nonpers rs) r). split.
-  - unfold promote_impl. apply in_map. exact Hr.
+  - unfold promote_before_fix. apply in_map. exact Hr.
   - split; [reflexivity|]. apply promote_with_deps. right. split; assumption.
 Qed.
 
-(* sc <- 3; DS_r := DS_1[calc Me_2 := Me_1 + sc]  : `sc` is assigned by a persistent statement, the code does not promote it,
+(* sc <- 3; DS_r := DS_1[calc Me_2 := Me_1 + sc]  : `sc` is assigned by a persistent statement, the code before the repair did not promote it,
    no edge is created and the consumer may be scheduled before (or after the release of) its producer *)
 Definition witness_unk : list rstmt := [RStmt 1 [] true []; RStmt 2 [0] false [1]].
 
-Theorem unknown_variable_promotion_impl_refuted :
+Theorem unknown_variable_promotion_before_fix_refuted :
   exists rs r v, In r rs /\ In v (r_unk r) /\ In v (assigned_any rs) /\
-                 forall s, In s (promote_impl rs) -> s_out s = r_out r -> ~ In v (s_deps s).
+                 forall s, In s (promote_before_fix rs) -> s_out s = r_out r -> ~ In v (s_deps s).
 Proof.
   exists witness_unk, (RStmt 2 [0] false [1]), 1. split; [right; left; reflexivity|].
   split; [left; reflexivity|]. split; [left; reflexivity|].
